@@ -42,6 +42,7 @@ RULE_DOC = {
     'R26': '`io::Error::new(io::ErrorKind::InvalidData, "..")` -> `io_invalid_data()` (opaque io::Error; only Ok/Err is observed)',
     'R30': '`let V = E.iter().map(|r| F).sum();` -> `let mut V: usize = 0; for r in E.iter() { V += F; }` (Iterator::sum over usize: the additions become overflow obligations)',
     'R31': 'std::io::Cursor over a byte slice: `io::Cursor::new(B)` -> `ByteCursor::new(B)`, `u64::from_le_bytes(buf)` (buf: [u8; 8]) -> `le_u64_of(buf)`; ByteCursor::read_exact is ASSUMED to behave as Cursor<&[u8]>::read_exact (8 bytes copied and consumed, or Err with nothing consumed)',
+    'R38': '`if let Some(P) = E.iter().position(|k| C) {` -> `let mut pos__N: Option<usize> = None; for i__p in 0..E.len() { if pos__N.is_none() { let k = &E[i__p]; if (C) { pos__N = Some(i__p); } } } if let Some(P) = pos__N {` (std: position returns the first index whose element satisfies C; C verbatim)',
     'R36': '`let (A, B): (Vec<_>, Vec<_>) = X.into_iter().partition(|p| P);` -> `let mut A = Vec::new(); let mut B = Vec::new(); for p__ in X { let keep__ = { let p = &p__; P }; if keep__ { A.push(p__); } else { B.push(p__); } }` (std definition of partition; P verbatim)',
     'R37': '`for V in A.into_iter().chain(B) {` -> `let chained__ = vec_concat(A, B); for V in chained__ {` (std: chain yields all of A, then all of B; vec_concat is a VERIFIED helper: `a.append(&mut b)`)',
     'R35': '`M.entry(K).or_insert_with(F).m(ARGS);` -> `entry_or_insert_with_new(&mut M, K).m(ARGS);` - the entry chain is outlined into a helper (body: `m.entry(k).or_insert_with(F)`) whose contract is ASSUMED: the value under K by mutable reference, freshly built by F if absent, other keys untouched',
@@ -320,6 +321,15 @@ class Piece:
         self.resub('R31', r'io::Cursor::new\(', 'ByteCursor::new(')
         self.resub('R31', r'u64::from_le_bytes\((\w+)\)', r'le_u64_of(\1)')
         return self
+
+    def R38(self):
+        n = [0]
+        def rep(m):
+            n[0] += 1
+            ind, pat, e, k, c = m.groups()
+            return ('%slet mut pos__%d: Option<usize> = None;\n%sfor i__p%d in 0..%s.len() { if pos__%d.is_none() { let %s = &%s[i__p%d]; if (%s) { pos__%d = Some(i__p%d); } } }\n%sif let Some(%s) = pos__%d {'
+                    % (ind, n[0], ind, n[0], e, n[0], k, e, n[0], c.strip(), n[0], n[0], ind, pat, n[0]))
+        return self.resub('R38', r'([ \t]*)if let Some\((\w+)\) = ([\w\.]+)\.iter\(\)\.position\(\|(\w+)\| ([^\n]+?)\) \{', rep)
 
     def R36(self):
         pat = r'([ \t]*)let \((\w+), (\w+)\): \(Vec<_>, Vec<_>\) = (\w+)\s*\.into_iter\(\)\s*\.partition\(\|(\w+)\|\s*([^;]+?)\);'
@@ -659,7 +669,7 @@ class Piece:
         self._fired('R19', 'into_iter().map(f).collect() tail -> index loop + push')
         return self
 
-    def R10(self, method, param_ty, annotate):
+    def R10(self, method, param_ty, annotate, ret_ty='bool'):
         """`.method(|p| BODY)` -> `.method(|p: TY| -> (r: bool) <clauses(i)> { BODY })`: the closure gets a type annotation, a named
         result and braces so that a contract can be attached; BODY is copied verbatim.  annotate(i) returns the clauses for the i-th site."""
         text = self.text
@@ -678,7 +688,7 @@ class Piece:
             body = text[m.end():cl].strip()
             if body.startswith('{') and body.endswith('}') and match_close(body, scan(body), 0) == len(body) - 1:
                 body = body[1:-1].strip()
-            new = '.%s(|%s: %s| -> (r: bool) %s { %s })' % (method, m.group(1), param_ty, annotate(n), body)
+            new = '.%s(|%s: %s| -> (r: %s) %s { %s })' % (method, m.group(1), param_ty, ret_ty, annotate(n), body)
             text = text[:m.start()] + new + text[cl + 1:]
             pos = m.start() + len(new)
             n += 1
